@@ -264,6 +264,8 @@ class Ev(object):
         self.maxdepth = 14
         self.next_oid = [1]
         self.continues = []           # paths that reached the end of a loop body (loop_mode='once')
+        self.unfold_once = set()      # quals of recursive functions to inline at their outermost call only
+        self.active = []              # quals of the functions being inlined (call stack)
         self.trace_calls = None       # optional list collecting (callee FuncV, args, site)
 
     # ------------------------------------------------------------------ helpers
@@ -984,6 +986,8 @@ class Ev(object):
         order = [x.arg for x in a.args] + [x.arg for x in a.kwonlyargs]
         ordered = tuple(loc[n] for n in order)
         mode = "inline" if force_inline else self.policy.decide(f, ordered)
+        if f.qual in self.unfold_once:
+            mode = "opaque" if f.qual in self.active else "inline"
         if mode == "inline" and self.depth >= self.maxdepth:
             raise AnalysisError("call depth budget exceeded at %s" % f.qual)
         if mode != "inline":
@@ -998,6 +1002,7 @@ class Ev(object):
         if order and f.owner is not None:
             env["self_value"] = loc[order[0]]
         self.depth += 1
+        self.active.append(f.qual)
         try:
             if isinstance(f.node, ast.Lambda):
                 out = [Outcome("return", v, s) for s, v in self.expr(f.node.body, env, st)]
@@ -1015,6 +1020,7 @@ class Ev(object):
                         raise AnalysisError("'%s' escaped from %s" % (p.kind, f.qual))
         finally:
             self.depth -= 1
+            self.active.pop()
         if len(out) + len(self.raised) > self.maxpaths:
             raise AnalysisError("path budget exceeded in %s (%d paths)" % (f.qual, len(out) + len(self.raised)))
         return out
